@@ -9,12 +9,13 @@ vars == <<in, out, ph>>
 Carry == {"take_scalar", "take_list", "take_slice", "take_mask", "take_position", "take_axis", "compress_axis",
           "sum", "mean", "median", "min", "std", "cumsum", "diff", "diff_keepaxis",
           "transpose", "T", "swapaxes", "rollaxis", "newaxis", "squeeze", "repeat", "broadcast", "flatten", "unflatten", "reshape",
-          "reindex_axis", "reindex_like", "sort_axis", "interp_axis", "dropna", "fillna", "setna", "put_copy", "copy"}
+          "reindex_axis", "reindex_axis_axisobj", "reindex_axis_ndarray", "align_outer", "align_inner_sort", "take_dict", "loc_slice", "reindex_like", "sort_axis", "interp_axis", "dropna", "fillna", "setna", "put_copy", "copy"}
 \* operation classes that return arrays without the operands' metadata
 Drop == {"add", "sub", "mul", "truediv", "floordiv", "pow", "radd", "rsub", "scalar_mul", "ndarray_add",
          "neg", "pos", "invert", "eq", "ne", "lt", "le", "gt", "ge", "and", "or", "stack", "concatenate"}
 \* operations on one axis after which that axis keeps its own metadata
-AxisCarry == {"take_list", "take_slice", "take_mask", "take_position", "take_axis", "compress_axis", "reindex_axis", "sort_axis", "dropna",
+AxisCarry == {"take_list", "take_slice", "take_mask", "take_position", "take_axis", "compress_axis", "reindex_axis", "reindex_axis_axisobj",
+              "reindex_axis_ndarray", "align_outer", "align_inner_sort", "take_dict", "loc_slice", "sort_axis", "dropna",
               "transpose", "swapaxes", "squeeze", "newaxis", "sum_other", "cumsum"}
 
 Init == in = "" /\ out = <<>> /\ ph = 0
